@@ -7,11 +7,17 @@ a brute-force scan of the model feature list (gvmon/models/C06.py).  The stateme
 connection tells whether the bin pre-filter was part of the executed SQL.  Further classes: databases whose seqids
 differ only in letter case (twin features at the same coordinates), databases with small features in the first 128 kb
 and features around bin ends of every level queried with 100-500 Mb spans and with ends on the last base of a bin, and
-several generators of one FeatureDB kept alive at once (nested / zip / random schedules).
+several generators of one FeatureDB kept alive at once (nested / zip / random schedules), databases in which many features
+have no ID attribute and several of those are byte-identical lines (each is a stored feature and must be returned once),
+and 'handles' histories: two FeatureDB objects on one database file, the second one adds (new seqid, existing seqids) and
+deletes features, the first one - never reopened - must answer like a scan of the file's current content.
 """
+import os
 import random
 import re
 from collections import Counter
+
+from gvmon import dbdump
 
 from gvmon.gen import C06 as G
 from gvmon.models import C06 as M
@@ -35,7 +41,16 @@ RULE = ("feature sets of 300 (quick: 250) features on 2-4 seqids x 3 strands x 5
         "FeatureDB consumed round-robin (zip) or on a random schedule, and nested loops (outer: a query with 2-40 expected "
         "features; inner, per yielded feature f: region(f) / all_features, features_of_type, children, parents with "
         "limit=(f.seqid, f.start, f.end), children(f, limit=...)); every generator is compared with the same call consumed "
-        "alone and with the scan")
+        "alone and with the scan.  Every 5th database (flavour 'idless'): ~35% of the non-parent features are written without "
+        "an ID attribute (stored under '<featuretype>_<n>' in file order) and about half of those 2-4 times byte-identically "
+        "(same Parent values), so that region / limit= results, the children of a parent feature and the features whose "
+        "parents() are asked hold byte-identical features.  'handles' cases: a set of 60-120 features (25% flavour 'idless') "
+        "is imported into a database FILE; FeatureDB object A answers 30-50 queries (45% of them anchored on features of a "
+        "seqid that is not stored yet); then in 1-3 steps another FeatureDB object B on the same file adds 12-40 features "
+        "with update() (45% on a brand-new seqid, the others on existing seqids, most of them children of stored or new parent "
+        "features) and deletes 0-8 stored ones; after every step A - never reopened, all its generators exhausted - answers "
+        "30-50 more queries (all region forms and limit= of the four apis); reference = the file's content at that moment "
+        "read with plain sqlite3")
 REQUIRED = ["queries executed", "result rows compared", "sql: bin clause present", "sql: bin clause absent",
             "sql: region bin clause with 9..899 bins", "sql: limit bin clause with 9..899 bins", "sql: region within, both bounds in range, no bin clause (>= 900 bins)",
             "sql: limit, no bin clause (>= 900 bins)", "queries with an end >= 2**29", "one-sided queries",
@@ -52,11 +67,25 @@ REQUIRED = ["queries executed", "result rows compared", "sql: bin clause present
             "interleaved: schedules over >= 2 non-empty generators (one with >= 2 items)"] + \
            ["bin-end queries (end = m*2^%d): %s, a feature ending on that base returned" % (17 + 3 * k, w)
             for k in range(4) for w in ("region within", "region overlap", "limit within", "limit overlap")] + \
-           ["interleaved: generators of %s" % a for a in ("region", "all_features", "features_of_type", "children", "parents")]
+           ["interleaved: generators of %s" % a for a in ("region", "all_features", "features_of_type", "children", "parents")] + \
+           ["id-less twins: results holding >= 2 byte-identical features, each returned once: %s" % a
+            for a in ("region", "all_features(limit=)", "features_of_type(limit=)", "children(limit=)")] + \
+           ["id-less twins: parents(limit=) of one of several byte-identical features, non-empty answer",
+            "handles: update() calls on the second handle", "handles: features deleted by the second handle",
+            "handles: queries naming a seqid that does not exist yet (nothing returned)",
+            "handles: such queries through region", "handles: such queries through limit=",
+            "handles: non-empty answers on the seqid added by the second handle: region",
+            "handles: non-empty answers on the seqid added by the second handle: limit=",
+            "handles: answers holding features the second handle added on an existing seqid: region",
+            "handles: answers holding features the second handle added on an existing seqid: limit=",
+            "handles: children(limit=) answers holding features added by the second handle",
+            "handles: queries that a deleted feature would have matched (not returned): region",
+            "handles: queries that a deleted feature would have matched (not returned): limit="] + \
+           ["handles: such answers, form region/%s" % f for f in ("tuple", "string", "feature", "kw", "start-only", "end-only")]
 REQUIRED_CLASSES = ["region/%s/%s" % (f, w) for f, _ in G.REGION_FORMS for w in ("overlap", "within")] + \
                    ["%s/%s/%s" % (a, f, w) for a in ("all_features", "features_of_type", "children", "parents")
                     for f, _ in G.LIMIT_FORMS for w in ("overlap", "within")] + \
-                   ["interleave/nested", "interleave/schedule"]
+                   ["interleave/nested", "interleave/schedule", "handles/second handle updates the file"]
 ASSUMPTIONS = [
     "one bound only: a result R is accepted when {strictly beyond the bound} <= R <= {at or beyond the bound}; for "
     "completely_within the deciding coordinate is the feature's start (only start given) / end (only end given), "
@@ -69,6 +98,12 @@ ASSUMPTIONS = [
     "seqids are compared as exact strings (letter case matters), as everywhere else in gffutils and in the GFF3 format",
     "interleaved generators: the database is not modified while they are alive; a generator is compared as a multiset with "
     "the same call consumed alone (no order is promised) and with the scan",
+    "a line without ID attribute is a stored feature of its own (id '<featuretype>_<n>', n counting such lines of that "
+    "featuretype in file order); byte-identical lines are as many stored features, each to be returned once",
+    "handles: 'stored features' are those in the database file at the moment of the query, read with plain sqlite3 after the "
+    "second object's update()/delete() returned (what update()/delete() must store is C10's; a file content other than "
+    "added/deleted is only counted); every generator of the first object is exhausted before the file is changed; children/"
+    "parents universes are the level-1 rows of the file's relations table; ids are named only while stored",
 ]
 QUICK_SHARDS = 4
 THOROUGH_SHARDS = 16
@@ -220,6 +255,8 @@ def report(ctx, case, reason_class, detail):
 def execute(ctx, case):
     if case["kind"] == "interleave":
         return execute_interleave(ctx, case)
+    if case["kind"] == "handles":
+        return execute_handles(ctx, case)
     q = case["query"]
     db, SET, stored_bin = get_db(ctx, case["set"])
     feats = SET["features"]
@@ -242,6 +279,10 @@ def execute(ctx, case):
     bad = M.judge(got, lower, upper)
     if bad:
         cls, why = diagnose(q, uni, got, stored_bin)
+        twins = SET.get("twins") or {}
+        if cls.startswith("differs") and bad["missing"] and set(bad["missing"]) <= set(twins) and not bad["unexpected"]:
+            cls, why = "twins:" + cls[8:], why + ": of several byte-identical lines without ID attribute (distinct stored " \
+                                                "features) not every one is returned"
         detail = {"why": why, "query": describe(q), "n_got": len(got), "n_expected": len(lower),
                   "sql bin clause": present, "set": case["set"]}
         by_id = {f["id"]: f for f in feats}
@@ -271,6 +312,15 @@ def observe_class(ctx, q, SET, uni, lower, present):
             ctx.mon("case-variant seqids: queries that the other spelling's features would have matched (none returned)")
             ctx.mon("case-variant seqids: such queries through %s" % ("region" if kind == "region" else "limit="))
             ctx.mon("case-variant seqids: such queries, form %s/%s" % (kind, q["form"]))
+    twins = SET.get("twins")
+    if twins:
+        if any(n > 1 for n in Counter(twins[i] for i in lower if i in twins).values()):
+            ctx.mon("id-less twins: results holding >= 2 byte-identical features, each returned once: %s"
+                    % (q["api"] if kind == "region" else q["api"] + "(limit=)"))
+        if q["api"] == "parents" and lower and SET["by_id"][q["id"]].get("noid"):
+            ctx.mon("id-less: parents(limit=) of a feature without ID attribute, non-empty answer")
+            if q["id"] in twins:
+                ctx.mon("id-less twins: parents(limit=) of one of several byte-identical features, non-empty answer")
     tag = q.get("tag")
     if tag == "wide":
         ctx.mon("wide queries (start <= 2^17, span 100-500 Mb): %s %s" % (kind, wo))
@@ -389,6 +439,206 @@ def execute_interleave(ctx, case):
     return useful
 
 
+# ---------------------------------------------------------------------------------------------------------
+def file_content(path):
+    """The features of the database file as a model feature list, read with plain sqlite3 (never through gffutils);
+    "parents" = the level-1 rows of the relations table.  None when the table holds rows of another level."""
+    d = dbdump.dump(path)
+    if any(lv != 1 for _, _, lv in d["relations"]):
+        return None
+    up = {}
+    for p, c, _ in d["relations"]:
+        up.setdefault(c, []).append(p)
+    return [{"id": f["id"], "seqid": f["seqid"], "featuretype": f["featuretype"], "strand": f["strand"],
+             "start": f["start"], "end": f["end"], "parents": up.get(f["id"], [])} for f in d["features"]]
+
+
+def execute_handles(ctx, case):
+    """kind "handles": {"set": set parameters, "upd": seed of G.make_update, "b_early": bool, "rounds": [[query...], ...]}.
+
+    The feature set is imported into a database FILE.  Handle A (a FeatureDB object on that file) answers rounds[0];
+    then, for every step of the update, handle B (another FeatureDB object on the same file) adds features with update()
+    and deletes some, and A - never reopened - answers the next round.  Every answer must equal the scan of what the file
+    holds at that moment (read with plain sqlite3).  Returns True when A answered a non-empty region query on a seqid
+    that appeared after A's first region() call."""
+    import gffutils
+
+    setp = case["set"]
+    SET = G.make_set(setp["seed"], setp["n"], flavour=setp.get("flavour"))
+    U = G.make_update(case["upd"], SET)
+    new_seqid = U["new_seqid"]
+    path, gff = ctx.tmp(".db"), ctx.tmp(".gff3")
+    A = B = None
+    useful = False
+
+    def write(feats):
+        with open(gff, "w", encoding="utf-8", newline="") as fh:
+            fh.write(G.text_of(feats))
+
+    def one_round(ri, queries, added, region_seen):
+        nonlocal useful
+        feats = file_content(path)
+        if feats is None:
+            ctx.skip("handles: the relations table holds rows of a level other than 1 (two-level hierarchy expected)")
+            return False
+        stored = {f["id"] for f in feats}
+        seqids = {f["seqid"] for f in feats}
+        ctx.mon("handles: rounds answered by the first handle")
+        for q in queries:
+            if q["id"] is not None and q["id"] not in stored:
+                ctx.mon("handles: queries naming a feature that is not stored at that moment (not executed)")
+                continue
+            uni = M.universe(feats, q["api"], q["id"])
+            lower, upper = M.expected(uni, q["seqid"], q["start"], q["end"], q["within"], q["strand"], q["ft"])
+            sqltrace.reset()
+            ctx.mon("queries executed")
+            ctx.mon("handles: queries answered by the first handle")
+            kind = "region" if q["api"] == "region" else "limit="
+            try:
+                got = call(A, q)
+            except Exception as ex:
+                report(ctx, case, "handles raised", {"why": "two handles on one file: %s query on the first handle raised %s"
+                                                    % (kind, repr(ex)[:300]), "round": ri, "query": describe(q)})
+                return False
+            ctx.mon("result rows compared", len(got))
+            bad = M.judge(got, lower, upper)
+            if bad:
+                fresh, C = None, None
+                try:
+                    C = gffutils.FeatureDB(path)
+                    fresh = M.judge(call(C, q), lower, upper) is None
+                except Exception:
+                    pass
+                finally:
+                    if C is not None:
+                        C.conn.close()
+                why = "two handles on one file, round %d (%s): the first handle's %s answer differs from the scan of the file's " \
+                      "current content" % (ri, "before any change" if ri == 0 else "after the second handle's update()/delete()", kind)
+                if fresh:
+                    why += "; a FeatureDB object opened now answers like the scan (the first handle is stale)"
+                detail = {"why": why, "round": ri, "query": describe(q), "n_got": len(got), "n_expected": len(lower),
+                          "seqid is new (added by the second handle)": q["seqid"] == new_seqid, "set": setp, "upd": case["upd"]}
+                for k, ids in bad.items():
+                    detail[k], detail["n " + k] = ids[:6], len(ids)
+                report(ctx, case, "handles:" + kind + (":stale" if fresh else ""), detail)
+                return False
+            if ri == 0:
+                if q["seqid"] is not None and q["seqid"] not in seqids:
+                    ctx.mon("handles: queries naming a seqid that does not exist yet (nothing returned)")
+                    ctx.mon("handles: such queries through %s" % kind)
+            else:
+                ctx.mon("handles: queries answered after the second handle changed the file: %s" % kind)
+                new = [i for i in lower if i in added]
+                if q["seqid"] == new_seqid and lower:
+                    ctx.mon("handles: non-empty answers on the seqid added by the second handle: %s" % kind)
+                    ctx.mon("handles: such answers, form %s/%s" % (q["api"], q["form"]))
+                    if q["api"] == "region" and region_seen:
+                        useful = True
+                elif new:
+                    ctx.mon("handles: answers holding features the second handle added on an existing seqid: %s" % kind)
+                if q["api"] in ("children", "parents") and new:
+                    ctx.mon("handles: %s(limit=) answers holding features added by the second handle" % q["api"])
+                gone = M.expected(M.universe(case_deleted, q["api"], q["id"]), q["seqid"], q["start"], q["end"], q["within"],
+                                  q["strand"], q["ft"])[0] if case_deleted else []
+                if gone:
+                    ctx.mon("handles: queries that a deleted feature would have matched (not returned): %s" % kind)
+        return True
+
+    case_deleted = []      # model features deleted so far (for the monitor only; their Parent values as written)
+    try:
+        try:
+            write(SET["features"])
+            gffutils.create_db(gff, path).conn.close()
+            A = gffutils.FeatureDB(path)
+            if case.get("b_early"):
+                B = gffutils.FeatureDB(path)
+        except Exception as ex:
+            from gvmon.run import Inconclusive
+            raise Inconclusive("handles: building the database file failed: %r" % (ex,))
+        ctx.mon("handles: database files built")
+        rounds = case["rounds"]
+        if not one_round(0, rounds[0], set(), False):
+            return False
+        region_seen = any(q["api"] == "region" for q in rounds[0])
+        added = set()
+        model = {f["id"]: f for f in SET["features"]}
+        for si, step in enumerate(U["steps"]):
+            if si + 1 >= len(rounds):
+                break
+            try:
+                if B is None:
+                    B = gffutils.FeatureDB(path)
+                write(step["add"])
+                B.update(gff, make_backup=False)
+                if step["delete"]:
+                    B.delete(list(step["delete"]), make_backup=False)
+            except Exception as ex:
+                # update()/delete() themselves are C10's business; here they are the premise
+                ctx.skip("handles: update()/delete() on the second handle raised %s" % type(ex).__name__)
+                return False
+            ctx.mon("handles: update() calls on the second handle")
+            ctx.mon("handles: features added by the second handle", len(step["add"]))
+            ctx.mon("handles: features deleted by the second handle", len(step["delete"]))
+            for f in step["add"]:
+                model[f["id"]] = f
+                added.add(f["id"])
+            for i in step["delete"]:
+                case_deleted.append(model.pop(i))
+                added.discard(i)
+            now = file_content(path)
+            if now is not None and sorted(f["id"] for f in now) != sorted(model):
+                ctx.mon("handles: the file's content after update()/delete() is not what was added/deleted (C10's business; "
+                        "the scan of the file stays the reference)")
+            if not one_round(si + 1, rounds[si + 1], added, region_seen):
+                return False
+    finally:
+        for h in (A, B):
+            if h is not None:
+                try:
+                    h.conn.close()
+                except Exception:
+                    pass
+        for p in (path, gff, path + "-journal", path + "-wal", path + "-shm"):
+            if os.path.exists(p):
+                os.unlink(p)
+        for v in contracts.drain():
+            report(ctx, case, "contract " + v.get("contract", "?"), v)
+    return useful
+
+
+def gen_handles(rng, n):
+    """A 'handles' case: small feature set, an update by a second handle, one round of queries per state of the file.
+    The queries are drawn against the union of everything that is ever stored, so that round 0 already names the seqid
+    and the features that the second handle adds later."""
+    setp = {"seed": rng.randrange(1 << 30), "n": n}
+    if rng.random() < 0.25:
+        setp["flavour"] = "idless"
+    SET = G.make_set(setp["seed"], setp["n"], flavour=setp.get("flavour"))
+    upd = rng.randrange(1 << 30)
+    U = G.make_update(upd, SET)
+    every = SET["features"] + [f for st in U["steps"] for f in st["add"]]
+    ALL = dict(SET, features=every, seqids=SET["seqids"] + [U["new_seqid"]], hubs=U["hubs"])
+    NEW = dict(ALL, features=[f for f in every if f["seqid"] == U["new_seqid"]])
+    hubs_new = [h for h in U["hubs"] if any(h in f["parents"] for f in NEW["features"])]
+    anchored = bool(hubs_new)
+    rounds = []
+    for ri in range(len(U["steps"]) + 1):
+        qs = []
+        for _ in range(rng.randrange(30, 50)):
+            r = rng.random()
+            if r < 0.45 and anchored:
+                # anchored on the features of the new seqid
+                q = G.gen_query(rng, dict(NEW, hubs=hubs_new or U["hubs"]))
+                if q["api"] == "parents" and rng.random() < 0.5:
+                    q.update(api="region", form=rng.choice(["tuple", "string", "feature", "kw"]), id=None, level=None)
+                    q["fstrand"] = rng.choice(G.STRANDS) if q["form"] == "feature" else None
+            else:
+                q = G.gen_query(rng, ALL)
+            qs.append(q)
+        rounds.append(qs)
+    return {"kind": "handles", "set": setp, "upd": upd, "b_early": rng.random() < 0.5, "rounds": rounds}
+
+
 def describe(q):
     d = {k: v for k, v in q.items() if v is not None}
     return d
@@ -450,7 +700,7 @@ def diagnose(q, uni, got, stored_bin):
         api, "completely_within" if q["within"] else "overlap", q["form"])
 
 
-FLAVOURS = [None, "case", None, "binends"]
+FLAVOURS = [None, "case", None, "binends", "idless"]
 
 
 def gen_interleave(rng, SET, setp):
@@ -492,13 +742,19 @@ def gen_interleave(rng, SET, setp):
 def run(ctx):
     rng = ctx.rng
     quick = ctx.tier == "quick"
-    nsets = 4 if quick else 20
+    nsets = 5 if quick else 20
     nq = ctx.budget(26000, 16 * 20 * 3600) // nsets
     n = 250 if quick else 300
-    first = rng.randrange(4)
+    # two FeatureDB objects on one database file: the second one changes the file, the first one answers
+    for _ in range(ctx.budget(40, 16 * 40)):
+        case = gen_handles(rng, rng.choice([60, 90, 120]))
+        useful = execute(ctx, case)
+        ctx.case((case["set"]["seed"], case["upd"], case["b_early"]), bool(useful), cls="handles/second handle updates the file",
+                 sample={"set": case["set"], "upd": case["upd"], "rounds": [len(r) for r in case["rounds"]]})
+    first = rng.randrange(len(FLAVOURS))
     for si in range(nsets):
         setp = {"seed": rng.randrange(1 << 30), "n": n}
-        flavour = FLAVOURS[(si + first) % 4]
+        flavour = FLAVOURS[(si + first) % len(FLAVOURS)]
         if flavour:
             setp["flavour"] = flavour
         elif rng.random() < 0.35:
@@ -551,7 +807,12 @@ MANIFEST = {
             "features around the bin ends of every level, queried with 100-500 Mb completely_within spans and with ends on "
             "the last base of a bin. 'interleave' cases keep 2-4 generators of one FeatureDB alive (zip-like, random "
             "schedule, nested region(feature)/limit= loops inside a loop over another query): each must yield exactly what "
-            "it yields alone. Held = no executed query disagreed.",
+            "it yields alone. Databases of flavour 'idless' hold features without ID attribute, several of them "
+            "byte-identical lines: each is one stored feature and must be returned once by region, limit= and "
+            "children/parents(limit=). 'handles' cases open two FeatureDB objects on one database file: the first answers "
+            "queries (also on a seqid that does not exist yet), the second adds features on a brand-new seqid and on existing "
+            "ones with update() and deletes some, then the first - not reopened - must answer exactly like a scan of the file's "
+            "current content. Held = no executed query disagreed.",
     "note": "Trusted: the scan in gvmon/models/C06.py, sqlite3. One-sided queries are judged by a sandwich (strictly beyond <= "
             "result <= at or beyond). Not covered: queries without any bound, empty featuretype collections, hierarchies deeper "
             "than one level under limit=.",
